@@ -160,7 +160,7 @@ impl Check for C02 {
         "E1 single-node engine: real KeyspaceGroup + keyspace actors + ConsistencyService handlers on a paused tokio runtime over SimStorage with a fault plan"
     }
     fn rule(&self) -> &'static str {
-        "Cases: (a) fault-position sweep: for fixed seeded request histories, every mutating storage call position 1..16 x every k in 0..3 (single call fails with no effect; bulk call applies exactly k documents, reports them, fails); (b) seeded histories of 3-30 set/multi_set/del/multi_del/batch/purge requests through the actor mailbox (both sources) or the ConsistencyService handlers, timestamps from 1-4 origins near 'now', hours old or in the future, bulk calls sharing one timestamp, a fifth of the histories with bulk calls naming one id more than once (any timestamp order), sequential or in concurrent groups of 2-4 with storage latency, random fault plans. Oracle after every request group: Serialize reply (validated decode) lists live == store live rows and tombstones == store tombstone rows, per keyspace. Non-trivial = >= 3 requests and >= 2 storage writes. Distinct = hash of the storage-call trace and per-group set fingerprints."
+        "Cases: (a) fault-position sweep: for fixed seeded request histories, every mutating storage call position 1..16 x every k in 0..3 (single call fails with no effect; bulk call applies exactly k documents, reports them, fails); (b) seeded histories of 3-30 set/multi_set/del/multi_del/batch/purge requests through the actor mailbox (both sources) or the ConsistencyService handlers, timestamps from 1-4 origins near 'now', hours old or in the future, bulk calls sharing one timestamp, a fifth of the histories with bulk calls naming one id more than once (any timestamp order), sequential or in concurrent groups of 2-4 with storage latency, random fault plans. One case in 48 is a full E2 cluster scenario (C01's generator, incl. the burst family) judged by the same oracle on every node at the final quiescent point. Oracle after every request group: Serialize reply (validated decode) lists live == store live rows and tombstones == store tombstone rows, per keyspace. Non-trivial = >= 3 requests and >= 2 storage writes. Distinct = hash of the storage-call trace and per-group set fingerprints."
     }
     fn assumptions(&self) -> Vec<String> {
         vec![
@@ -184,6 +184,14 @@ impl Check for C02 {
         }
     }
     fn generate(&self, seed: u64, idx: u64, tier: Tier) -> Value {
+        // cluster arm: one case in 48 is a full E2 cluster scenario, judged by the same
+        // set-vs-store oracle on every node at the final quiescent point
+        if idx % 48 == 47 {
+            let mut rng = rng_from(case_seed(seed ^ 0xC02E2, idx));
+            let k = crate::e2::c01::GenKnobs { max_nodes: 4, max_ops: 30, span_ms: 12_000, level_bias_none: 0.4 };
+            let sc = if rng.gen_bool(0.3) { crate::e2::c01::gen_burst_scenario(&mut rng) } else { crate::e2::c01::gen_cluster_scenario(&mut rng, &k) };
+            return serde_json::json!({ "cluster": sc });
+        }
         let enum_total = ENUM_SLOTS * if tier == Tier::Quick { ENUM_HISTORIES_QUICK } else { ENUM_HISTORIES_THOROUGH };
         if idx < enum_total {
             let h = idx / ENUM_SLOTS;
@@ -222,6 +230,27 @@ impl Check for C02 {
         serde_json::to_value(Scenario { base_ms: cfg.base_ms, store, events, keyspaces, origin: "random".into() }).unwrap()
     }
     fn execute(&self, scenario: &Value) -> Outcome {
+        if let Some(c) = scenario.get("cluster") {
+            let sc: crate::e2::c01::Scenario = match serde_json::from_value(c.clone()) {
+                Ok(s) => s,
+                Err(e) => return Outcome::invalid(format!("bad cluster scenario: {e}")),
+            };
+            return match crate::e2::c01::run_cluster(&sc, "C02") {
+                Ok(mut r) => {
+                    for (n, diffs) in r.set_store_diffs.clone() {
+                        if !diffs.is_empty() {
+                            r.out.violate("C02/cluster-node-set-and-store-disagree-at-quiescence", format!("node {n}: {}", diffs.join("; ")));
+                        }
+                    }
+                    // the closing exchanges are C01's business, not this property's
+                    r.out.violations.retain(|v| !v.class.ends_with("/closing-repair-exchange-does-not-complete"));
+                    r.out.probe("cluster_arm_case");
+                    r.out.nontrivial = r.issued.len() >= 2;
+                    r.out
+                },
+                Err(e) => Outcome::invalid(e),
+            };
+        }
         let sc: Scenario = match serde_json::from_value(scenario.clone()) {
             Ok(s) => s,
             Err(e) => return Outcome::invalid(format!("bad scenario: {e}")),
@@ -229,6 +258,9 @@ impl Check for C02 {
         execute_scenario(&sc, "C02")
     }
     fn shrink(&self, sc: &Value) -> Vec<Value> {
+        if let Some(c) = sc.get("cluster") {
+            return crate::e2::c01::shrink_cluster(c).into_iter().map(|v| serde_json::json!({ "cluster": v })).collect();
+        }
         shrink_groups(sc)
     }
 }
